@@ -22,6 +22,15 @@ NOT_APPLICABLE = {
 }
 
 REGISTRY = {
+    "C10": {
+        "modules": ["c10"],
+        "level_text": "Runtime side of the property only: contracts on the real LogicStack operations against an abstract stack view (every element, all 2^32 x 33 states) and on LogicEvaluator::operator() (lock-step loop invariant against a textbook array-stack evaluation, any string length) discharged by CBMC. The construction-side rewrites (CsgTree, simplifiers, De Morgan, postfix/infix builders) are host std::variant/unordered_map code outside the extractor's subset and are NOT decided.",
+        "level_note": "Trusted: CBMC/dfcc/SAT; extraction rules; well-formedness of the postfix string enters through per-token instances of the depth-profile precondition. Not decided: all rewriting/encoding clauses and the internal-surface flag.",
+        "design_ref": "DESIGN.md 4 C10",
+        "trusted_base": [],
+        "assumptions": [],
+        "not_decided": ["CsgTree::insert/simplify, NodeSimplifier, DeMorganSimplifier, NodeReplacer preserve the boolean function", "PostfixLogicBuilder / InfixStringBuilder encode the tree faithfully", "InternalSurfaceFlagger: flagged volumes are intersections of half-spaces"],
+    },
     "C18": {
         "modules": ["c18"],
         "level_text": "Function and loop contracts on the real algorithm and grid code (extracted to C each run): binary/linear search against the std:: definition for arrays of unbounded length, uniform-grid lookup returns a valid bin for every in-range double, bounded proofs (stated length) for partition and heap sort over symbolic contents.",
